@@ -1138,9 +1138,11 @@ func runC03(tier string, seed int64, outdir string, replay string) error {
 			for capacity := size; capacity <= size+3; capacity++ {
 				for _, stv := range []string{"wild-b+expired-zz", "broken-qb+wild-b", "broken-wild-b+valid-a"} {
 					for _, q := range []string{"q.b.x", " Q.B.X ", "a.b.x", "zz.x"} {
-						in := c03In{Certs: nonCovering[:size], Cap: capacity, Fallback: "fb.y", SNI: q, Local: "127.0.0.1", Storage: stv}
-						if err := env.lookupCase(w, in, "almost-full-boundary"); err != nil {
-							return err
+						for _, fbk := range []string{"fb.y", ""} {
+							in := c03In{Certs: nonCovering[:size], Cap: capacity, Fallback: fbk, SNI: q, Local: "127.0.0.1", Storage: stv}
+							if err := env.lookupCase(w, in, "almost-full-boundary"); err != nil {
+								return err
+							}
 						}
 					}
 				}
